@@ -358,6 +358,9 @@ def long_seeds():
         seeds.append(("bitstringN", R.enc_bitstring(body[:-1] + b"\xf8" if n else b"", 3 if n else 0)))
     for v in (0, 127, 128, 2 ** 255 - 19, 2 ** 256 - 1, 2 ** 1024 + 1, 2 ** 1100):
         seeds.append(("integer", R.enc_int(v)))
+    seeds.append(("object", b"\x06\x82\x08\x35\x2b" + b"\xff" * 2100))          # last arc never terminated, 2100 octets
+    seeds.append(("number", b"\xff" * 2100))
+    seeds.append(("object", R.tlv(0x06, b"\x2b" + b"\xff" * 2100 + b"\x7f")))    # terminated huge arc (valid)
     for oid in ((1, 2, 840, 10045, 2, 1), (2, 999, 3), (1, 3, 36, 3, 3, 2, 8, 1, 1, 13),
                 (0, 0), (2, 2 ** 70, 0, 128, 16384) + tuple(range(40))):
         seeds.append(("object", R.enc_oid(oid)))
